@@ -9,26 +9,38 @@ Qed.
 
 Theorem C12_terminates : C12_statement.
 Proof.
-  intros walk late s. unfold P12, close. rewrite C12_cancel_all. cbn [Nat.add]. cbn [r_returns r_seconds r_left r_writer_closed orb andb].
-  rewrite !orb_true_r. cbn [andb]. rewrite Nat.eqb_refl, !andb_true_r.
+  intros walk late stall s. unfold P12, close. rewrite C12_cancel_all. cbn [Nat.add]. cbn [r_returns r_seconds r_left r_writer_closed orb andb negb].
+  rewrite !orb_true_r, !andb_false_r. cbn [andb negb]. rewrite Nat.eqb_refl, !andb_true_r.
+  assert (Hw : (close_wait stall <= 10)%N).
+  { unfold close_wait, writer_timeout. destruct stall as [d|]; lia. }
   unfold drain_bound, reader_timeout, writer_timeout.
-  destruct (s_connected s && negb (Nat.eqb (s_queued s) 0 && Nat.eqb (s_unread s) 0)); [|reflexivity].
-  destruct (s_connected s && s_talking s); lia.
+  destruct (s_connected s); cbn [andb];
+    destruct (negb (Nat.eqb (s_queued s) 0 && Nat.eqb (s_unread s) 0)); try destruct (s_talking s); lia.
 Qed.
 
 (* each pinned behaviour violates the property in some reachable state *)
 Theorem C12_pinned_join_refuted :          (* disconnected, one queued request *)
-  P12 (close false true true true true [] 0 (mkCS false 1 0 false true 0 [] [])) = false.
+  P12 (close false true true true true true [] 0 (Some 0%N) (mkCS false 1 0 false true 0 [] [])) = false.
 Proof. vm_compute. reflexivity. Qed.
 Theorem C12_pinned_disconnected_refuted :  (* closing while disconnected leaves device tasks *)
-  P12 (close true false true true true [] 0 (mkCS false 0 0 false true 2 [] [])) = false.
+  P12 (close true false true true true true [] 0 (Some 0%N) (mkCS false 0 0 false true 2 [] [])) = false.
 Proof. vm_compute. reflexivity. Qed.
 Theorem C12_pinned_merge_refuted :         (* mixer 0 and thermostat 0 *)
-  P12 (close true true false true true [] 0 (mkCS true 0 0 false false 0 [(0, 1); (4, 1)]%nat [(0, 1)]%nat)) = false.
+  P12 (close true true false true true true [] 0 (Some 0%N) (mkCS true 0 0 false false 0 [(0, 1); (4, 1)]%nat [(0, 1)]%nat)) = false.
 Proof. vm_compute. reflexivity. Qed.
 Theorem C12_pinned_cancel_refuted :        (* a finished reconnect attempt met before its successor *)
-  P12 (close true true true false true [false; true] 0 (mkCS false 0 0 false true 0 [] [])) = false.
+  P12 (close true true true false true true [false; true] 0 (Some 0%N) (mkCS false 0 0 false true 0 [] [])) = false.
 Proof. vm_compute. reflexivity. Qed.
 Theorem C12_pinned_recancel_refuted :      (* a loss detected as close() is issued schedules one more reconnect attempt *)
-  P12 (close true true true true false [] 1 (mkCS true 1 0 false true 0 [] [])) = false.
+  P12 (close true true true true false true [] 1 (Some 0%N) (mkCS true 1 0 false true 0 [] [])) = false.
 Proof. vm_compute. reflexivity. Qed.
+Theorem C12_pinned_closewait_refuted :     (* the transport never confirms that it is closed: the time-out escapes, close() raises *)
+  P12 (close true true true true true false [] 0 None (mkCS true 0 0 false false 1 [] [])) = false.
+Proof. vm_compute. reflexivity. Qed.
+(* ... while a transport that confirms within the time-out is no problem even then, and the repaired close() needs at most
+   the 10 s of the time-out more *)
+Theorem C12_closewait_in_time : forall d s, (d < 10)%N ->
+  close true true true true true false [] 0 (Some d) s = close true true true true true true [] 0 (Some d) s.
+Proof.
+  intros d s H. unfold close, confirms_in_time, writer_timeout. replace (d <? 10)%N with true by lia. now rewrite !andb_false_r.
+Qed.
